@@ -60,8 +60,8 @@ func c20KnownPattern(sp c20Spec, o c20Outcome) string {
 	}
 	n := 0
 	for _, f := range fs {
-		if f.Tag == "" {
-			continue // untagged fields that minimisation could not drop (a model needs one v1 field)
+		if _, pk := c20TagGet(f.Tag, "primaryKey"); f.Tag == "" || (pk && !c20HasTag(f.Tag, "default")) {
+			continue // the key field minimisation cannot drop (a model needs one v1 field); MigrateColumn skips primary keys
 		}
 		if !c20Respelled(f) {
 			return ""
